@@ -49,6 +49,31 @@ Theorem C04_unique_extensional :
 Proof. exact (canon_unique_ext K V cmp layer). Qed.
 End GENERIC.
 
+(** History independence in its simplest form: Insert of an absent key followed by Delete of it, and
+    Delete of an entry followed by Insert of it, both succeed and end in a tree with the original
+    listing and the original height, size and shape (same_tree = the conclusion of C04_unique),
+    for every key order, value test, layer function, branch factor, tree and residency. *)
+Section UNDO.
+Variables (K V : Type) (cmp : K -> K -> comparison) (veq : V -> V -> bool) (layer : K -> nat).
+Hypothesis cmp_eq : forall a b, cmp a b = Eq <-> a = b.
+Hypothesis cmp_antisym : forall a b, cmp b a = CompOpp (cmp a b).
+Hypothesis cmp_trans : forall a b c, cmp a b = Lt -> cmp b c = Lt -> cmp a c = Lt.
+Hypothesis veq_eq : forall x y, veq x y = true <-> x = y.
+Hypothesis layer_bound : forall k, layer k < max_layer_fuel.
+
+Theorem C04_insert_then_delete_restores : forall bf m l k v,
+  canon K V cmp layer bf m l -> lookup K V cmp k l = None ->
+  oks (insert K V cmp veq layer m k v) (fun m1 =>
+    oks (delete K V cmp veq layer m1 k v) (fun m2 => canon K V cmp layer bf m2 l /\ same_tree K V m m2)).
+Proof. exact (insert_then_delete_restores K V cmp veq layer cmp_eq cmp_antisym cmp_trans veq_eq layer_bound). Qed.
+
+Theorem C04_delete_then_insert_restores : forall bf m l k v,
+  canon K V cmp layer bf m l -> lookup K V cmp k l = Some v ->
+  oks (delete K V cmp veq layer m k v) (fun m1 =>
+    oks (insert K V cmp veq layer m1 k v) (fun m2 => canon K V cmp layer bf m2 l /\ same_tree K V m m2)).
+Proof. exact (delete_then_insert_restores K V cmp veq layer cmp_eq cmp_antisym cmp_trans veq_eq layer_bound). Qed.
+End UNDO.
+
 (** Any two supported histories (inserts, updates, deletes down to any size, clones, persists, in any
     order, in any worlds) that end in the same entry list yield trees of the same height, size and
     shape (equality of keys, values and structure, hence of encodings).
@@ -159,3 +184,5 @@ Print Assumptions C04_reachable_stores_content_addressed.
 Print Assumptions C04_identical_root_in_histories.
 Print Assumptions C04_height_is_a_function_of_contents.
 Print Assumptions C04_unique_extensional.
+Print Assumptions C04_insert_then_delete_restores.
+Print Assumptions C04_delete_then_insert_restores.
